@@ -173,6 +173,16 @@ fn table_layout(rep: &mut Report, r: &mut Rng) {
     if t.iter().take(600).count() != 512 || t.iter_mut().take(600).count() != 512 {
         rep.violation("PageTable::iter|not-512-items", J::Null);
     }
+    // there are exactly 512 slots: an index beyond them is refused in every build profile (it would name memory outside
+    // the 4 KiB block)
+    for bad in [512usize, 513, 1023, 4096, usize::MAX] {
+        rep.eval();
+        let r1 = crate::util::catch(|| &t[bad] as *const PageTableEntry as usize);
+        let r2 = crate::util::catch(|| &mut t[bad] as *mut PageTableEntry as usize);
+        if r1.is_ok() || r2.is_ok() {
+            rep.violation("PageTable|index-outside-0..512-not-refused", J::obj(vec![("profile", J::s(crate::util::profile_name())), ("index", J::hex(bad as u64)), ("table", J::hex(base as u64)), ("handed_out", J::s(format!("{:x?} / {:x?}", r1.ok(), r2.ok())))]));
+        }
+    }
     rep.exhaustive.push("all 512 slots x {Index<usize>, Index<PageTableIndex>, iter, iter_mut, IndexMut x2}: pointer identity with base+8*i".into());
     rep.class("table|slots-exhaustive");
     // write through every path, read raw little-endian bytes
